@@ -729,7 +729,7 @@ def main():
     tier = sys.argv[1] if len(sys.argv) > 1 else 'quick'
     seed = int(sys.argv[2]) if len(sys.argv) > 2 else 0
     t0 = time.time()
-    tmpdir = tempfile.mkdtemp(prefix='pytough-', dir='/var/tmp')
+    tmpdir = tempfile.mkdtemp(prefix='pytough-', dir=os.environ.get('PYTOUGH_SCRATCH', '/var/tmp'))
     try:
         nmain = 3456 if tier == 'quick' else 138240
         nside = 60 if tier == 'quick' else 1200
